@@ -235,11 +235,13 @@ class LinearHomeostasis(IndependentCellTrainer):
                 if state.target is None:
                     raise RuntimeError("'target' must be non-None if no default is set")
                 else:
-                    target = state.target
+                    celltarget = state.target
+            else:
+                celltarget = target
 
             # compute rate scaling term
             k = cell.connection.postsyn_receptive(
-                (target - monitors["spike_rate"].peek()) / target
+                (celltarget - monitors["spike_rate"].peek()) / celltarget
             ).mean(dim=-1)
 
             # compute update conditional on parameter
